@@ -142,6 +142,7 @@ def build_class(mspec, events, clock=None, hw=None):
     ns = {'__module__': 'vlib.modgen.generated', '__doc__': mspec['description']}
     hw = hw if hw is not None else {}
     mname = mspec['name']
+    subns = {'__module__': 'vlib.modgen.generated', '__doc__': mspec['description']}   # split_limits: limits added by a subclass
 
     for p in mspec['params']:
         n = p['name']
@@ -170,7 +171,7 @@ def build_class(mspec, events, clock=None, hw=None):
             wr.__name__ = 'write_' + n
             ns['write_' + n] = wr
         for ln in limit_params(p):
-            ns[ln] = C.Limit()
+            (subns if mspec.get('split_limits') else ns)[ln] = C.Limit()
         if p['check']:
             def chk(self, value, _n=n, _kind=p['check']):
                 events.append(('check', self.name, _n, value))
@@ -215,7 +216,14 @@ def build_class(mspec, events, clock=None, hw=None):
         fn.__name__ = c['name']
         fn.__doc__ = f'command {c["name"]}'
         ns[c['name']] = C.Command(argdt, result=resdt, **kwds)(fn)
-    cls = type('Gen_' + mname, (base,), ns)
+    # SECoP features: mixins with Feature as a direct base class, placed before or after the interface class
+    from frappy.modulebase import Feature
+    before = [type(fn, (Feature,), {'__module__': 'vlib.modgen.generated'}) for fn, pos in mspec.get('features', []) if pos == 'before']
+    after = [type(fn, (Feature,), {'__module__': 'vlib.modgen.generated'}) for fn, pos in mspec.get('features', []) if pos == 'after']
+    cls = type('Gen_' + mname, tuple(before) + (base,) + tuple(after), ns)
+    if mspec.get('split_limits'):
+        # the class shape "parent defines the parameter (and maybe a check hook), a subclass adds the limit parameters"
+        cls = type('Gen_' + mname + '_limited', (cls,), subns)
     return cls
 
 
